@@ -10,6 +10,7 @@ import (
 	"sort"
 	"sync"
 	"syscall"
+	"unsafe"
 
 	"github.com/crate-crypto/go-ipa/bandersnatch/fp"
 	"github.com/crate-crypto/go-ipa/bandersnatch/fr"
@@ -640,4 +641,24 @@ func roBytesBudget(b []byte) []byte {
 		return rb
 	}
 	return b
+}
+
+// roElem / roFr put a copy of an element / a scalar on a read-only memory page and return a pointer to it: an operation
+// that writes to an operand it should only read - also transiently, restoring it before it returns - faults.
+func roElem(e *banderwagon.Element) *banderwagon.Element {
+	raw := unsafe.Slice((*byte)(unsafe.Pointer(e)), unsafe.Sizeof(*e))
+	rb := roBytes(raw)
+	if rb == nil {
+		return nil
+	}
+	return (*banderwagon.Element)(unsafe.Pointer(&rb[0]))
+}
+
+func roFr(s *fr.Element) *fr.Element {
+	raw := unsafe.Slice((*byte)(unsafe.Pointer(s)), unsafe.Sizeof(*s))
+	rb := roBytes(raw)
+	if rb == nil {
+		return nil
+	}
+	return (*fr.Element)(unsafe.Pointer(&rb[0]))
 }
